@@ -125,12 +125,12 @@ Definition lres_krylov (r : @lres C V) (v : V) : Prop :=
   (forall t, (t < k)%nat -> InSpan Q (S t) (Apow t v)).
 
 Section Run.
-Variables (tol : C) (v : V) (n max_iters : nat).
+Variables (tol : C) (v : V) (n max_iters : nat) (rfix : bool).
 Hypothesis tol_nonneg : nonneg tol.
 Hypothesis v_nz : nrm v <> 0.
 Hypothesis n_pos : (1 <= n)%nat.
 Hypothesis mi_pos : (1 <= max_iters)%nat.
-Let r := lanczos1 o A false n v max_iters tol.
+Let r := lanczos1 o A false rfix n v max_iters tol.
 Let k := length (rQ r).
 Let Q (a : nat) : V := nth a (rQ r) o.(vzero).
 Let T := Tent o r.
@@ -168,7 +168,7 @@ Proof.
     (forall a, (a < k)%nat -> conj (ent o (rdiag r) a) = ent o (rdiag r) a) /\
     (forall a, (S a < k)%nat -> exists x, ent o (roff r) a = nrm x) /\
     (forall a, (S a < k)%nat -> ent o (roff r) a <> 0))
-    by exact (lanczos1_spec o A nonneg L tol tol_nonneg v v_nz n max_iters n_pos mi_pos).
+    by exact (lanczos1_spec o A nonneg L tol tol_nonneg rfix v v_nz n max_iters n_pos mi_pos).
   destruct H as (w & Hk & Hld & Hlo & Hfirst & Hon & Hpo & Hrel & Hdr & Hoff & Hnz).
   assert (Hmat : forall b, (b < k)%nat -> forall u,
      dot u (A (Q b)) = csum o k (fun a => T a b * dot u (Q a)) + (if S b =? k then dot u w else 0)).
@@ -274,7 +274,7 @@ Theorem lanczos_eigs_spec w (cle : C -> C -> Prop)
      csum o k (fun c => T a c * snd (eigh k T) c j) = fst (eigh k T) j * snd (eigh k T) a j) ->        (* eigh: T Y = Y diag(theta) *)
   (forall j, (j < k)%nat -> (argsort k (fst (eigh k T)) j < k)%nat) ->                                  (* argsort: indices in range *)
   (forall i j, (i <= j < k)%nat -> cle (fst (eigh k T) (argsort k (fst (eigh k T)) i)) (fst (eigh k T) (argsort k (fst (eigh k T)) j))) ->   (* argsort: ascending *)
-  let out := lanczos_eigs o A false eigh argsort n v max_iters tol in
+  let out := lanczos_eigs o A false rfix eigh argsort n v max_iters tol in
   (forall i j, (i <= j < k)%nat -> cle (fst out i) (fst out j)) /\
   (forall j, (j < k)%nat -> forall u,
      dot u (A (snd out j)) = fst out j * dot u (snd out j) + snd (eigh k T) (k - 1)%nat (argsort k (fst (eigh k T)) j) * dot u w).
@@ -287,18 +287,18 @@ End Run.
 End Thms.
 
 (* ---------- the column bound needs no law at all: any scalar type (floats included), aliasing or not, any batch ---------- *)
-Lemma lloop_len {C V} (o : kops C V) A al tol fuel m : forall i (ss : list (@lst C V)),
-  length (snd (lloop o A al fuel tol m i ss)) = length ss.
+Lemma lloop_len {C V} (o : kops C V) A al rfix tol fuel m : forall i (ss : list (@lst C V)),
+  length (snd (lloop o A al rfix fuel tol m i ss)) = length ss.
 Proof. induction fuel as [|f IH]; intros i ss; simpl; [reflexivity|].
-  destruct (lcond o tol m i ss); simpl; [|reflexivity]. rewrite IH. apply map_length. Qed.
+  destruct (lcond o rfix tol m i ss); simpl; [|reflexivity]. rewrite IH. apply map_length. Qed.
 
-Theorem lanczos_batch_cols {C V} (o : kops C V) (A : V -> V) (alias : bool) (n : nat) (vs : list V) (max_iters : nat) (tol : C) :
-  let res := lanczos_batch o A alias n vs max_iters tol in
+Theorem lanczos_batch_cols {C V} (o : kops C V) (A : V -> V) (alias rfix : bool) (n : nat) (vs : list V) (max_iters : nat) (tol : C) :
+  let res := lanczos_batch o A alias rfix n vs max_iters tol in
   fst res <= Nat.min max_iters n /\ length (snd res) = length vs /\
   forall r, In r (snd res) -> length (rQ r) <= fst res /\ length (rdiag r) <= fst res /\ length (roff r) <= fst res - 1.
 Proof.
   unfold lanczos_batch, lfact. cbn [fst snd]. set (m := Nat.min max_iters n).
-  pose proof (lloop_le o A tol alias m m 1 (map (linit o m) vs) ltac:(lia)) as Hle.
+  pose proof (lloop_le o A tol rfix alias m m 1 (map (linit o m) vs) ltac:(lia)) as Hle.
   split; [lia|]. split; [rewrite map_length, lloop_len, map_length; reflexivity|].
   intros r Hr. apply in_map_iff in Hr as (s & <- & _). unfold ltrim; cbn [rQ rdiag roff].
   rewrite !firstn_length. lia. Qed.
@@ -306,9 +306,9 @@ Proof.
 (* ---------- the full statement (every element of every batch of start vectors) and what is proved of it ---------- *)
 Definition C14_statement (batch_size : nat -> Prop) : Prop :=
   forall (C V : Type) (o : kops C V) (A : V -> V) (nonneg : C -> Prop), klaws o A nonneg ->
-  forall (tol : C) (vs : list V) (n max_iters : nat), batch_size (length vs) ->
+  forall (rfix : bool) (tol : C) (vs : list V) (n max_iters : nat), batch_size (length vs) ->
   nonneg tol -> Forall (fun v => o.(vnrm) v <> o.(c0)) vs -> 1 <= n -> 1 <= max_iters ->
-  forall b r, nth_error (snd (lanczos_batch o A false n vs max_iters tol)) b = Some r ->
+  forall b r, nth_error (snd (lanczos_batch o A false rfix n vs max_iters tol)) b = Some r ->
   exists w, lres_facts o A nonneg r (nth b vs o.(vzero)) n max_iters w /\ lres_krylov o A r (nth b vs o.(vzero)).
 (* C14_full is NOT provable for the current code: an element of a batch whose Krylov space is exhausted keeps iterating while
    another element continues (flag lanczos_batch_shared_stop; witness C14_Witness.batch_bad).  Proved: batches of one vector,
@@ -316,14 +316,14 @@ Definition C14_statement (batch_size : nat -> Prop) : Prop :=
 Definition C14_full : Prop := C14_statement (fun _ => True).
 Theorem C14_single_start_partial : C14_statement (fun len => len = 1).
 Proof.
-  intros C V o A nonneg L tol vs n mi Hlen Htol Hv Hn Hmi b r Hb.
+  intros C V o A nonneg L rfix tol vs n mi Hlen Htol Hv Hn Hmi b r Hb.
   destruct vs as [|v [|? ?]]; try discriminate Hlen. inversion Hv as [|? ? Hvnz _]; subst.
-  pose proof (lanczos_batch_cols o A false n [v] mi tol) as (_ & Hl & _). cbn [length] in Hl.
-  assert (Er : r = lanczos1 o A false n v mi tol /\ b = 0).
-  { unfold lanczos1. destruct (snd (lanczos_batch o A false n [v] mi tol)) as [|x [|? ?]]; try discriminate Hl.
+  pose proof (lanczos_batch_cols o A false rfix n [v] mi tol) as (_ & Hl & _). cbn [length] in Hl.
+  assert (Er : r = lanczos1 o A false rfix n v mi tol /\ b = 0).
+  { unfold lanczos1. destruct (snd (lanczos_batch o A false rfix n [v] mi tol)) as [|x [|? ?]]; try discriminate Hl.
     destruct b as [|[|b]]; simpl in Hb; try discriminate Hb. injection Hb as <-. auto. }
   destruct Er as [-> ->]. cbn [nth].
-  destruct (lanczos_run o A nonneg L tol v n mi Htol Hvnz Hn Hmi) as (w & F).
+  destruct (lanczos_run o A nonneg L tol v n mi rfix Htol Hvnz Hn Hmi) as (w & F).
   exists w. split; [exact F|]. eapply lanczos_krylov; eauto.
 Qed.
 
